@@ -272,6 +272,8 @@ class SR:
     def _bin(self, o, f, swap=False):
         if isinstance(o, np.ndarray) and o.ndim > 0:
             return NotImplemented
+        if not isinstance(o, (SR, SB, np.ndarray)) and not _is_num(o):
+            return NotImplemented       # e.g. a dual number: let the other operand's reflected method handle it
         if isinstance(o, (float, np.floating)) and math.isnan(float(o)):
             return SR(self.t, z3.BoolVal(True))
         b = rterm(o)
@@ -299,6 +301,8 @@ class SR:
     def __truediv__(self, o):
         if isinstance(o, np.ndarray) and o.ndim > 0:
             return NotImplemented
+        if not isinstance(o, (SR, SB, np.ndarray)) and not _is_num(o):
+            return NotImplemented
         if isinstance(o, (float, np.floating)) and math.isinf(float(o)):
             return SR(z3.RealVal(0), self.nan)
         b = rterm(o)
@@ -307,6 +311,8 @@ class SR:
 
     def __rtruediv__(self, o):
         if isinstance(o, np.ndarray) and o.ndim > 0:
+            return NotImplemented
+        if not isinstance(o, (SR, SB, np.ndarray)) and not _is_num(o):
             return NotImplemented
         engine().note_division(self.t)
         return SR(_div(rterm(o), self.t), _or_nan(self.nan, nanflag(o)))
